@@ -50,8 +50,7 @@ func rtCase(sp *VSpec, src string) {
 			return
 		}
 		ev.Printed = tok(s)
-		nontrivial = strings.ContainsAny(s, "\\ \n\r\x00") || strings.Count(s, "\"") > 2*strings.Count(s, "\t")+2 ||
-			len(s) > 24 || strings.ContainsAny(s[1:], "[]<>@^")
+		nontrivial = nontrivialRecs(ev.V)
 		r := parseKind(v.K, s, true)
 		ev.Out, ev.Site, ev.Msg, ev.PV = r.Out, r.Site, r.Msg, r.Recs
 		if v.K == "triple" && (r.Out != "value" || !sameRecs(r.Recs, ev.V)) {
@@ -73,11 +72,13 @@ func rtCase(sp *VSpec, src string) {
 	}
 	tw.Emit(ev)
 	stat("RT:" + v.K + ":" + ev.Out)
+	if src == "tlc" {
+		stat("tlc-cases")
+	}
 	if len(ev.Dom) > 0 {
 		stat("RT:open-domain")
 	}
-	countCase(key, true)
-	_ = nontrivial
+	countCase(key, nontrivial)
 	if ev.Out != "value" || len(ev.Dom) > 0 {
 		keepSample("RT-"+v.K+"-"+ev.Out, ev)
 	} else {
@@ -125,6 +126,7 @@ type GRTEvent struct {
 	Src    string   `json:"src"`
 	Dom    []string `json:"dom"`
 	N      int      `json:"n"` // number of triples handed to AddTriples
+	T      [][]Rec  `json:"t"` // their components (with zone offsets), in batch order
 	G      [][]Rec  `json:"g"`
 	Wcount int      `json:"wcount"`
 	Werr   bool     `json:"werr"`
@@ -140,7 +142,7 @@ type GRTEvent struct {
 }
 
 func grtCase(specs []*VSpec, src string) {
-	ev := GRTEvent{Ev: "GRT", Src: src, Dom: []string{}, G: [][]Rec{}, G2: [][]Rec{}, Feat: []string{}, Bad: [][]int{}, Out: "ok"}
+	ev := GRTEvent{Ev: "GRT", Src: src, Dom: []string{}, T: [][]Rec{}, G: [][]Rec{}, G2: [][]Rec{}, Feat: []string{}, Bad: [][]int{}, Out: "ok"}
 	var ts []*triple.Triple
 	dom := map[string]bool{}
 	for _, sp := range specs {
@@ -150,6 +152,11 @@ func grtCase(specs []*VSpec, src string) {
 			continue
 		}
 		ts = append(ts, v.T)
+		if recs, _ := proj(v, true); len(recs) == 3 && len(recs[2].B) < 2000 {
+			ev.T = append(ev.T, recs)
+		} else {
+			ev.T = append(ev.T, []Rec{}) // (a very long literal: the event is not replayable from itself)
+		}
 		for _, d := range domFlags(v) {
 			dom[d] = true
 		}
@@ -217,10 +224,16 @@ func runRT(candFile string) {
 	thorough := tier == "thorough"
 	// 1. TLC candidates (round-trip counterexamples of spec/ValueText.tla)
 	for _, c := range loadCands(candFile) {
-		if c.M == "rt" && c.V != nil {
+		switch {
+		case c.M == "rt" && c.V != nil:
 			rtCase(c.V, "tlc")
 			stat("cands")
+		case c.M == "graph":
+			grtCase(c.Vs, "replay")
 		}
+	}
+	if onlyCands {
+		return
 	}
 	// 2. the near-miss universe, each value in every context
 	for _, sp := range univ.Values {
@@ -394,4 +407,39 @@ func badComponents(t *triple.Triple) []int {
 		r = append(r, 3)
 	}
 	return r
+}
+
+// nontrivialRecs: the rule behind distinct_nontrivial of C05. A value is trivial when it consists
+// only of plain identifiers ([A-Za-z0-9_], '/' in node types) and immutable predicates; anything
+// with a delimiter, escape, white space, non-ASCII or control character, a number, bool, blob or a
+// time anchor exercises the formats and is non-trivial.
+func nontrivialRecs(recs []Rec) bool {
+	plain := func(tk string, slash bool) bool {
+		for _, c := range untok(tk) {
+			switch {
+			case c >= 'a' && c <= 'z', c >= 'A' && c <= 'Z', c >= '0' && c <= '9', c == '_':
+			case slash && c == '/':
+			default:
+				return false
+			}
+		}
+		return true
+	}
+	for _, r := range recs {
+		switch r.K {
+		case "node":
+			if !plain(r.A, true) || !plain(r.B, false) {
+				return true
+			}
+		case "pred":
+			if r.B == "tmp" || !plain(r.A, false) {
+				return true
+			}
+		case "lit":
+			if r.A != "text" || !plain(r.B, false) {
+				return true
+			}
+		}
+	}
+	return false
 }
